@@ -90,17 +90,17 @@ func stmtKind(st sqlparser.Statement) string {
 // ---- reference table walker ----
 
 type tableOcc struct {
-	Name  string // as written, without quotes
-	Qual  string
-	Plain bool   // unqualified, needs no quoting, was not quoted
-	Virtual bool // no table: a derived table that reads none (kept for the shape only)
-	Shape string // top-from | union-arm | derived-table | subselect-in-expression | insert-target | insert-select | paren-select | update | delete
+	Name    string // as written, without quotes
+	Qual    string
+	Plain   bool   // unqualified, needs no quoting, was not quoted
+	Virtual bool   // no table: a derived table that reads none (kept for the shape only)
+	Shape   string // top-from | union-arm | derived-table | subselect-in-expression | insert-target | insert-select | paren-select | update | delete
 }
 
 var plainNameRE = regexp.MustCompile(`^[A-Za-z_][A-Za-z0-9_]*$`)
 
 func occOf(tn sqlparser.TableName, shape string) (tableOcc, bool) {
-	name := tn.Name.String()
+	name := tn.Name.RawValue() // without the quotes a PostgreSQL quoted identifier keeps in String()
 	if name == "" {
 		return tableOcc{}, false
 	}
@@ -108,7 +108,7 @@ func occOf(tn sqlparser.TableName, shape string) (tableOcc, bool) {
 		// the parser gives every SELECT without FROM the table `dual`: not a table, but acra's table rules see it
 		return tableOcc{Shape: "dual", Virtual: true}, true
 	}
-	o := tableOcc{Name: name, Qual: tn.Qualifier.String(), Shape: shape}
+	o := tableOcc{Name: name, Qual: tn.Qualifier.RawValue(), Shape: shape}
 	if o.Qual == "" && plainNameRE.MatchString(name) {
 		if p, ok := safePrint(tn); ok && p == name {
 			o.Plain = true
@@ -232,10 +232,10 @@ func mainTables(st sqlparser.Statement) []string {
 		case *sqlparser.AliasedTableExpr:
 			switch e := x.Expr.(type) {
 			case sqlparser.TableName:
-				if strings.EqualFold(e.Name.String(), "dual") && e.Qualifier.IsEmpty() {
+				if strings.EqualFold(e.Name.RawValue(), "dual") && e.Qualifier.IsEmpty() {
 					return
 				}
-				out = append(out, strings.ToLower(e.Qualifier.String()+"."+e.Name.String()))
+				out = append(out, strings.ToLower(e.Qualifier.RawValue()+"."+e.Name.RawValue()))
 			case *sqlparser.Subquery:
 				out = append(out, "(subquery)")
 			}
@@ -267,7 +267,7 @@ func mainTables(st sqlparser.Statement) []string {
 	case *sqlparser.Select, *sqlparser.Union, *sqlparser.ParenSelect:
 		sel(x.(sqlparser.SelectStatement))
 	case *sqlparser.Insert:
-		out = append(out, strings.ToLower(x.Table.Qualifier.String()+"."+x.Table.Name.String()))
+		out = append(out, strings.ToLower(x.Table.Qualifier.RawValue()+"."+x.Table.Name.RawValue()))
 		if s, ok := x.Rows.(sqlparser.SelectStatement); ok {
 			out = append(out, ">")
 			sel(s)
